@@ -327,6 +327,10 @@ func (c *Cluster) genStep(g *genState) *Step {
 				st.N = r.Range(1, 6)
 				st.D = -int64(r.Range(1, 6))
 			}
+			if r.Bool(0.3) {
+				st.N, st.D = 0, 0
+				st.Late = r.Range(1, 8)
+			}
 			return st
 		}
 		st.Pull, st.Late = legFault(c)
